@@ -10,6 +10,10 @@ Ops     : ('asvec',)            as_vector() / n_parameters on the current object
                                 quat i (canonical unit quaternions from an axis-angle grid); the RESULT becomes the
                                 state, so depth 2 re-checks everything from non-initial states
           ('wrong', L)          from_vector of a vector of a wrong length L                            (query)
+          SCALE letters (small subset of the roots): the same payloads at other legal magnitudes - coordinates / pixel
+          values / translations / scale factors x 1e-6, 1e-9, 1e6, a common offset of 1e6 (offset / spread ~ 1e6),
+          transforms that are nearly but not exactly the identity (deviation 1e-7), and large-SIZE images (>= 1e5
+          pixels) whose mask is all true but one pixel / all false but one pixel.  Vector letters are scaled alike.
           ('compose', dir, X)   transforms only, level 0: compose_before/after_inplace with a generic X; no oracle of
                                 its own (C03), it only produces objects with a history for the vector letters
 Oracle  : reference parameterisations written here in plain numpy / python loops (never calling the menpo
@@ -31,8 +35,12 @@ ABSTRACT = {"Shape", "PointGraph"}  # Vectorizable subclasses that are never ins
 # tolerance for transforms (delta-from-identity and quaternion parameterisations do floating point work);
 # observed error on the unchanged tree over seeds 0..4 <= 3e-15 relative (h_matrix, probe, target), 6e-16
 # (quaternions, compared with atol 1e-9); the smallest planned mutant effect is > 1e-2.  Shapes and images are compared bitwise.
-T_ATOL = 1e-11
-T_RTOL = 1e-11
+# The tolerance is RELATIVE to the magnitude of the data it is applied to (never an absolute epsilon): an array is
+# compared norm-wise, |a - b| <= T_REL * scale with scale = the largest magnitude entering the computation of that array
+# (blocks of h_matrix separately; |A||x| + |t| for applied points; 1 + |p| for delta-from-identity parameters, |p| for
+# plain copies, 1 for unit quaternions).
+T_REL = 1e-11
+Q_REL = 1e-9  # unit quaternions (eigen-decomposition in as_vector)
 
 
 # ------------------------------------------------------------------------------------------------
@@ -58,6 +66,121 @@ def ocopy(o):
     if isinstance(o, (list, tuple)):
         return [ocopy(v) for v in o]
     return o
+
+
+def parse_scale(var):
+    """variant / option string -> (factor, offset, nearly-identity flag); (1, 0, False) for ordinary letters."""
+    if isinstance(var, str):
+        if var.startswith("s:"):
+            return float(var[2:]), 0.0, False
+        if var.startswith("off:"):
+            return 1.0, float(var[4:]), False
+        if var == "nearid":
+            return 1.0, 0.0, True
+    return 1.0, 0.0, False
+
+
+def is_scale_letter(var):
+    return parse_scale(var) != (1.0, 0.0, False)
+
+
+def scale_h(base, h, s, off):
+    """the same map expressed in coordinates multiplied by s and shifted by off (x' = s x + off): linear part kept,
+    translation s t + off - A off, projective row / s; scale factors (which ARE the input of the scale classes) x s."""
+    h = np.array(h, dtype=float, copy=True)
+    d = h.shape[0] - 1
+    if base in ("UniformScale", "NonUniformScale"):
+        for r in range(d):
+            h[r, r] = h[r, r] * s
+        return h
+    if base == "Rotation":
+        return h
+    a = h[:d, :d].copy()
+    h[:d, d] = s * h[:d, d] + off - a.dot(np.full(d, off))
+    if base == "Homogeneous":
+        h[d, :d] = h[d, :d] / s
+    return h
+
+
+def ident_mask(base, d):
+    """1 where a parameter is a delta from the identity (p = h_ii - 1: absolute rounding error eps * |h_ii|)."""
+    if base == "Affine":
+        return np.array([1.0 if r == c else 0.0 for c in range(d + 1) for r in range(d)])
+    if base == "Similarity":
+        return np.array([1.0, 0.0, 0.0, 0.0])
+    return None
+
+
+def apply_mag(base, h, x):
+    """largest magnitude entering ref_apply(base, h, x)"""
+    d = h.shape[0] - 1
+    with np.errstate(all="ignore"):
+        m = np.abs(x).dot(np.abs(h[:d, :d]).T) + np.abs(h[:d, d])
+        if base == "Homogeneous":
+            den = np.hstack([x, np.ones((x.shape[0], 1))]).dot(h[d])
+            m = m / np.abs(den)[:, None]
+        m = m[np.isfinite(m)]
+    return float(m.max()) if m.size else 1.0
+
+
+def arr_close(a, b, scale, rel=None):
+    rel = T_REL if rel is None else rel
+    a = np.asarray(a, dtype=float)
+    b = np.asarray(b, dtype=float)
+    if a.shape != b.shape:
+        return False
+    if not np.isfinite(scale):
+        return np.array_equal(a, b, equal_nan=True)
+    return bool(np.allclose(a, b, rtol=0, atol=rel * scale, equal_nan=True))
+
+
+def tdiff(exp, got, mags=None, path=""):
+    """obs_diff for transform observations with magnitude-relative tolerances (see T_REL)."""
+    mags = mags or {}
+    if isinstance(exp, np.ndarray) or isinstance(got, np.ndarray):
+        if not (isinstance(exp, np.ndarray) and isinstance(got, np.ndarray)):
+            return "%s: %s vs %s" % (path, type(exp).__name__, type(got).__name__)
+        if exp.shape != got.shape:
+            return "%s: shape %s vs %s" % (path, exp.shape, got.shape)
+        if exp.dtype.kind not in "fc":
+            return None if np.array_equal(exp, got) else "%s: arrays differ" % path
+        with np.errstate(all="ignore"):
+            if path.endswith(".h_matrix") and exp.ndim == 2 and exp.shape[0] == exp.shape[1]:
+                d = exp.shape[0] - 1
+                # linear part, translation, projective row (units 1 / length), homogeneous corner
+                blocks = [(slice(0, d), slice(0, d)), (slice(0, d), slice(d, d + 1)), (slice(d, d + 1), slice(0, d)), (slice(d, d + 1), slice(d, d + 1))]
+            else:
+                blocks = [tuple(slice(None) for _ in exp.shape)]
+            for blk in blocks:
+                a, b = exp[blk], got[blk]
+                fin = np.concatenate([np.abs(a[np.isfinite(a)]).ravel(), np.abs(b[np.isfinite(b)]).ravel(), [0.0]])
+                scale = max(float(fin.max()), mags.get(path, 0.0))
+                if path.endswith(".h_matrix") and blk is blocks[0]:
+                    scale = max(scale, 1.0)  # deltas from the identity
+                if path.endswith(".h_matrix") and len(blocks) == 4 and blk is blocks[2]:
+                    # the projective row acts as row . x next to the corner entry: its magnitude is |corner| / |x|
+                    scale = max(scale, max(1.0, float(np.abs(exp[d, d]))) / mags.get("xmag", 1.0))
+                if not arr_close(a, b, scale):
+                    err = np.nanmax(np.abs(a - b)) if a.size else 0.0
+                    return "%s: arrays differ (max abs %.3g at magnitude %.3g)" % (path, err, scale)
+        return None
+    if isinstance(exp, dict) and isinstance(got, dict):
+        if list(exp.keys()) != list(got.keys()):
+            return "%s: keys %s vs %s" % (path, list(exp.keys()), list(got.keys()))
+        for k in exp:
+            r = tdiff(exp[k], got[k], mags, path + "." + str(k))
+            if r:
+                return r
+        return None
+    if isinstance(exp, (list, tuple)) and isinstance(got, (list, tuple)):
+        if len(exp) != len(got):
+            return "%s: len %d vs %d" % (path, len(exp), len(got))
+        for i, (x, y) in enumerate(zip(exp, got)):
+            r = tdiff(x, y, mags, path + "[%d]" % i)
+            if r:
+                return r
+        return None
+    return obs_diff(exp, got, 0.0, 0.0, path)
 
 
 def ref_h_to_vec(base, h):
@@ -161,6 +284,11 @@ def ref_vector(ob):
     if fam == "image":
         px = ob["pixels"]
         out = []
+        if px.size > 5000:  # large-size letters: the same definition through flat raster indices
+            flat = px.reshape(px.shape[0], -1)
+            if cls == "MaskedImage":
+                flat = flat[:, np.flatnonzero(ob["mask"][0].ravel())]
+            return np.array(flat.ravel(), dtype=px.dtype)
         if cls == "MaskedImage":
             m = ob["mask"][0]
             for c in range(px.shape[0]):  # channel-major ...
@@ -193,6 +321,11 @@ def ref_from_vector(ob, w):
         px = np.zeros(shp, dtype=w.dtype)
         k = 0
         m = ob["mask"][0] if cls == "MaskedImage" else None
+        if px.size > 5000:
+            cols = np.flatnonzero(m.ravel()) if m is not None else np.arange(int(np.prod(shp[1:])))
+            px.reshape(shp[0], -1)[:, cols] = np.asarray(w).reshape(shp[0], len(cols))
+            new["pixels"] = px
+            return new
         for c in range(shp[0]):
             for idx in np.ndindex(*shp[1:]):
                 if m is None or m[idx]:
@@ -252,20 +385,36 @@ def build_object(root, seed):
             o = L.shape((cls, d, k), seed)
             o.points = np.asfortranarray(o.points)  # ravel() of this is a copy, not a view
             return o
+        if is_scale_letter(var):
+            s, off, _ = parse_scale(var)
+            o = L.shape((cls, d, k), seed)
+            o.points = o.points * s + off  # the coordinates at another magnitude (landmarks are carried as they are)
+            return o
         raise ValueError(root)
     if fam == "image":
         _, kind, shp, c, dtype, mkind, k, var = root
-        if mkind == "none":
-            from menpo.image import MaskedImage
+        if mkind in ("none", "onefalse"):
+            from menpo.image import BooleanImage, MaskedImage
 
-            im0 = L.image((kind, shp, c, dtype, "all", k), seed)
-            im = MaskedImage(im0.pixels, mask=np.zeros(tuple(shp), dtype=bool))
+            m = np.zeros(tuple(shp), dtype=bool)
+            if mkind == "onefalse":  # nearly, but not exactly, all true
+                m[...] = True
+                m.flat[(2 * m.size) // 3] = False
+            if kind == "BooleanImage":
+                im0 = L.image((kind, shp, c, dtype, "-", k), seed)
+                im = BooleanImage(m)
+            else:
+                im0 = L.image((kind, shp, c, dtype, "all", k), seed)
+                im = MaskedImage(im0.pixels, mask=m)
             if k:
                 im.landmarks = im0.landmarks
         else:
             im = L.image((kind, shp, c, dtype, mkind, k), seed)
         if var == "fortran":
             im.pixels = np.asfortranarray(im.pixels)
+        elif is_scale_letter(var):
+            s, off, _ = parse_scale(var)
+            im.pixels = (im.pixels * s + off).astype(im.pixels.dtype)  # pixel values at another magnitude
         return im
     if fam == "transform":
         import menpo.transform as mt
@@ -278,6 +427,42 @@ def build_object(root, seed):
             t = mt.AlignmentSimilarity(t.source, t.target, allow_mirror=True)
         elif opt == "mirror" and name == "AlignmentRotation":
             t = mt.AlignmentRotation(t.source, t.target, allow_mirror=True)
+        elif is_scale_letter(opt):
+            from menpo.shape import PointCloud
+
+            s, off, nearid = parse_scale(opt)
+            base = base_of(name)
+            if name.startswith("Alignment"):
+                # the same alignment problem in coordinates x s (+ off); nearly identical source and target for nearid
+                src = t.source.points * s + off
+                tgt = t.target.points * s + off
+                if nearid:
+                    tgt = src + 1e-7 * (tgt - src)
+                return getattr(mt, name)(PointCloud(src), PointCloud(tgt))
+            h = np.array(t.h_matrix, copy=True)
+            if nearid:
+                if base == "Rotation":
+                    ang = 2e-7  # radians
+                    h[:3, :3] = matrix_of_quat(np.array([np.cos(ang / 2), 0.0, np.sin(ang / 2) * 0.6, np.sin(ang / 2) * 0.8]))
+                else:
+                    h = np.eye(d + 1) + 1e-7 * (h - np.eye(d + 1))
+            else:
+                h = scale_h(base, h, s, off)
+            if base == "Homogeneous":
+                return mt.Homogeneous(h)
+            if base == "Affine":
+                return mt.Affine(h)
+            if base == "Similarity":
+                return mt.Similarity(h)
+            if base == "Rotation":
+                return mt.Rotation(h[:d, :d])
+            if base == "Translation":
+                return mt.Translation(h[:d, d])
+            if base == "UniformScale":
+                return mt.UniformScale(h[0, 0], d)
+            if base == "NonUniformScale":
+                return mt.NonUniformScale(np.array([h[r, r] for r in range(d)]))
+            raise ValueError(root)
         return t
     raise ValueError(root)
 
@@ -286,6 +471,31 @@ VECTORIZABLE_TRANSFORMS = {
     2: ["Homogeneous", "Affine", "Similarity", "UniformScale", "NonUniformScale", "Translation", "AlignmentAffine", "AlignmentSimilarity", "AlignmentUniformScale", "AlignmentTranslation"],
     3: ["Homogeneous", "Affine", "Rotation", "UniformScale", "NonUniformScale", "Translation", "AlignmentAffine", "AlignmentRotation", "AlignmentUniformScale", "AlignmentTranslation"],
 }
+SCALE_VARS = ("s:1e-6", "s:1e-9", "s:1e6", "off:1e6")
+LARGE = (320, 320)
+_S2 = ("s:1e-6", "s:1e6")
+SCALE_TRANSFORMS = [
+    ("Affine", 2, _S2 + ("s:1e-9", "off:1e6", "nearid")),
+    ("Affine", 3, ("nearid",)),
+    ("Similarity", 2, _S2 + ("off:1e6", "nearid")),
+    ("Translation", 3, _S2 + ("s:1e-9", "off:1e6", "nearid")),
+    ("UniformScale", 2, _S2 + ("s:1e-9", "nearid")),
+    ("NonUniformScale", 3, _S2 + ("nearid",)),
+    ("Homogeneous", 2, _S2 + ("nearid",)),
+    ("Rotation", 3, ("nearid",)),
+    ("AlignmentAffine", 2, _S2 + ("nearid",)),
+    ("AlignmentSimilarity", 2, _S2 + ("s:1e-9", "off:1e6", "nearid")),
+    ("AlignmentTranslation", 3, _S2 + ("s:1e-9", "off:1e6", "nearid")),
+    ("AlignmentUniformScale", 3, _S2 + ("off:1e6", "nearid")),
+    ("AlignmentRotation", 3, _S2 + ("nearid",)),
+]
+
+
+def root_var(root):
+    """the variant / option field of a root (where a scale letter is declared)"""
+    return root[7] if root[0] == "image" else root[4]
+
+
 OTHER_DIM_LENGTH = {"Homogeneous": {2: 16, 3: 9}, "Affine": {2: 12, 3: 6}, "Similarity": {2: 7}, "Translation": {2: 3, 3: 2}, "NonUniformScale": {2: 3, 3: 2}, "Rotation": {3: 1}}
 
 
@@ -346,9 +556,26 @@ class C05(Check):
         out.append(("image", "MaskedImage", (3, 4), 3, "float64", "all", 1, "fortran"))
         out.append(("image", "MaskedImage", (3, 4), 3, "float64", "sparse", 1, "fortran"))
         out.append(("image", "MaskedImage", (2, 3, 2), 2, "float32", "sparse", 1, "fortran"))
+        # SCALE letters: the same payloads at other legal magnitudes, on a small subset of the letters
+        for var in SCALE_VARS:
+            out.append(("shape", "PointCloud", 2, 1, var))
+            out.append(("shape", "TriMesh", 3, 1, var))
+            out.append(("shape", "LabelledPointUndirectedGraph", 2, 0, var))
+            out.append(("image", "Image", (3, 4), 2, "float64", "-", 1, var))
+            out.append(("image", "MaskedImage", (3, 4), 3, "float64", "sparse", 1, var))
+        for var in ("s:1e-6", "s:1e6"):
+            out.append(("image", "MaskedImage", (2, 3, 2), 2, "float32", "sparse", 1, var))
+        # large SIZE: >= 1e5 pixels, mask all true but one pixel / all false but one pixel
+        out.append(("image", "MaskedImage", LARGE, 1, "float64", "onefalse", 1, "std"))
+        out.append(("image", "MaskedImage", LARGE, 2, "float32", "onefalse", 0, "std"))
+        out.append(("image", "MaskedImage", LARGE, 1, "float64", "single", 1, "std"))
+        out.append(("image", "BooleanImage", LARGE, 1, "bool", "onefalse", 1, "std"))
         variants = (0, 1, 2) if not thorough else (0, 1, 2, 3)
         heavy = []
         ns = self._rot_shards()
+        for name, d, opts in SCALE_TRANSFORMS:
+            for opt in opts:
+                (heavy if base_of(name) == "Rotation" else out).append(("transform", name, d, 0, opt, 0, 1))
         for d in (2, 3):
             for name in VECTORIZABLE_TRANSFORMS[d]:
                 for var in variants:
@@ -384,13 +611,20 @@ class C05(Check):
             return ("unobservable", type(st["obj"]).__name__, type(e).__name__)
         # a letter and a from_vector result with the same observation are kept apart: their buffers differ in
         # ownership / writability (the aliasing pattern is part of the state), so `own` is re-explored at depth 2
-        return (st["derived"], st["composed"], obs_key(ob))
+        sc, _, nearid = parse_scale(root_var(st["root"]))
+        decimals = 12 if nearid else 9 - int(round(np.log10(sc)))  # the rounding of the key follows the magnitude
+        return (st["derived"], st["composed"], obs_key(ob, decimals))
 
     def check_root(self, st, root):
         fails = []
         o = st["obj"]
         cls = type(o).__name__
         self.note("class:%s" % cls)
+        var = root_var(root)
+        if is_scale_letter(var):
+            self.note("scale:%s:%s" % (var, family(cls)))
+        if root[0] == "image" and tuple(root[2]) == LARGE:
+            self.note("size:large-%s" % root[5])
         ro = [p for p, a in buffers(o) if not a.flags.writeable]
         if ro:
             fails.append(Failure(cls, "letter-not-writeable", "harness letter has read-only buffers %r" % ro))
@@ -398,7 +632,28 @@ class C05(Check):
 
     # ------------------------------------------------------------------ alphabet
     def _tol(self, cls):
-        return (0.0, 0.0) if family(cls) != "transform" else (T_ATOL, T_RTOL)
+        """(atol, rtol) marker: (0, 0) = bitwise (shapes, images); anything else = magnitude-relative (transforms)"""
+        return (0.0, 0.0) if family(cls) != "transform" else (T_REL, T_REL)
+
+    @staticmethod
+    def _odiff(exp, got, cls, skip=()):
+        """complete observations: bitwise for shapes / images, magnitude-relative (tdiff) for transforms"""
+        if family(cls) != "transform":
+            return obs_diff(exp, got, 0.0, 0.0, skip=skip)
+        if skip:
+            exp = type(exp)((k, v) for k, v in exp.items() if "." + k not in skip)
+            got = type(got)((k, v) for k, v in got.items() if "." + k not in skip)
+        base = base_of(cls)
+        mags = {}
+        h = exp.get("h_matrix")
+        if isinstance(h, np.ndarray):
+            x = exp["source"] if "source" in exp else (PROBE2 if h.shape[0] == 3 else PROBE3)
+            mags["xmag"] = float(np.abs(x).max())
+            if "source" in exp:
+                mags[".target"] = apply_mag(base, h, exp["source"])
+            if isinstance(exp.get("probe"), np.ndarray):
+                mags[".probe"] = apply_mag(base, h, PROBE2 if h.shape[0] == 3 else PROBE3)
+        return tdiff(exp, got, mags)
 
     def _n(self, st):
         return int(ref_vector(st["obs"]).shape[0])
@@ -454,7 +709,7 @@ class C05(Check):
                 seen.add(x)
                 out.append(("wrong", int(x)))
         # mutator letters: a transform that has swallowed another one in place must still round-trip
-        if fam == "transform" and level == 0:
+        if fam == "transform" and level == 0 and not is_scale_letter(root_var(st["root"])):
             for direction in ("before", "after"):
                 for partner in L.HOMOG_PLAIN:
                     out.append(("compose", direction, partner))
@@ -464,8 +719,30 @@ class C05(Check):
         return op[0] in ("asvec", "wrong")
 
     # ------------------------------------------------------------------ payload
-    def _payload(self, ob, n, op_salt):
-        """seeded vector of length n in the natural dtype of the object (structure never depends on the seed)."""
+    def _payload(self, ob, n, op_salt, var=None):
+        """seeded vector of length n in the natural dtype of the object (structure never depends on the seed); for a
+        scale letter the vector is expressed at the magnitude of the letter."""
+        w = self._payload_unit(ob, n, op_salt)
+        if op_salt[0] == "wrong" or not is_scale_letter(var):
+            return w
+        sc, off, nearid = parse_scale(var)
+        cls = ob["class"]
+        fam = family(cls)
+        if fam in ("shape", "image"):
+            return (w * sc + off).astype(w.dtype) if w.dtype.kind == "f" else w
+        base = base_of(cls)
+        d = ob["n_dims"]
+        if nearid:
+            if base in ("UniformScale", "NonUniformScale"):
+                return 1.0 + 1e-7 * (w - 1.0)
+            if base == "Homogeneous":
+                return (np.eye(d + 1) + 1e-7 * (w.reshape(d + 1, d + 1) - np.eye(d + 1))).ravel()
+            return 1e-7 * w
+        if base in ("UniformScale", "NonUniformScale"):
+            return w * sc
+        return ref_h_to_vec(base, scale_h(base, ref_vec_to_h(base, d, w), sc, off))
+
+    def _payload_unit(self, ob, n, op_salt):
         cls = ob["class"]
         fam = family(cls)
         r = L.rs(self.seed, "c05-vec", cls, n, op_salt)
@@ -517,7 +794,7 @@ class C05(Check):
             return np.ones(n, dtype=dt)
         if kind == "quat":
             return quat_grid(self.tier)[op[2]].copy()
-        return self._payload(ob, n, (kind, op[2]))
+        return self._payload(ob, n, (kind, op[2]), root_var(st["root"]))
 
     # ------------------------------------------------------------------ steps
     def apply(self, st, op, verify=True):
@@ -598,6 +875,9 @@ class C05(Check):
         dv = self._vec_diff(v, ref, cls, atol, rtol)
         if dv:
             fails.append(Failure(where, "vector-content", "as_vector() differs from the reference parameterisation: %s" % dv))
+        eq = self._equivariance(st, v, cls)
+        if eq:
+            fails.append(Failure(where, "scale-equivariance", eq))
         v2 = o.as_vector()
         if obs_diff(np.asarray(v2), np.asarray(v)) is not None:
             fails.append(Failure(where, "vector-not-repeatable", "second as_vector() differs from the first"))
@@ -609,6 +889,28 @@ class C05(Check):
             m = ob0["mask"]
             self.note("masked:%s" % ("all" if m.all() else "none" if not m.any() else "single" if m.sum() == 1 else "sparse"))
         return fails
+
+    def _equivariance(self, st, v, cls):
+        """as_vector of the letter at magnitude s (+ offset) == the vector of the unit-scale twin, scaled alike.
+        Alignment letters are exempt: their matrix comes out of a fit at another scale (C07), not out of this map."""
+        root = st["root"]
+        var = root_var(root)
+        sc, off, nearid = parse_scale(var)
+        if not is_scale_letter(var) or nearid or st["derived"] or st["composed"] or cls.startswith("Alignment"):
+            return None
+        twin_root = tuple("std" if (i == 7 and root[0] == "image") or (i == 4 and root[0] == "shape") else "-" if (i == 4 and root[0] == "transform") else x for i, x in enumerate(root))
+        vt = np.array(build_object(twin_root, self.seed).as_vector(), copy=True)
+        if family(cls) != "transform":
+            want = (vt * sc + off).astype(vt.dtype)
+        elif base_of(cls) in ("UniformScale", "NonUniformScale"):
+            want = vt * sc
+        else:
+            d = st["obs"]["n_dims"]
+            want = ref_h_to_vec(base_of(cls), scale_h(base_of(cls), ref_vec_to_h(base_of(cls), d, vt), sc, off))
+        atol, rtol = self._tol(cls)
+        dv = self._vec_diff(v, want, cls, atol, rtol)
+        self.note("equivariance:%s" % family(cls))
+        return ("as_vector of the scaled letter is not the scaled vector of the unit-scale letter: %s" % dv) if dv else None
 
     @staticmethod
     def _vec_diff(v, ref, cls, atol, rtol):
@@ -624,9 +926,16 @@ class C05(Check):
             if v.dtype != ref.dtype:
                 return "dtype %s vs %s" % (v.dtype, ref.dtype)
             return None if np.array_equal(v, ref) else "values differ: %r vs %r" % (v.tolist()[:8], ref.tolist()[:8])
+        # magnitude-relative, element by element: |p| for copied entries, 1 + |p| for deltas from the identity, 1 for
+        # unit quaternions
         if base_of(cls) == "Rotation":
-            atol = 1e-9
-        if np.allclose(v, ref, atol=atol, rtol=rtol, equal_nan=True):
+            tol = np.full(ref.shape, Q_REL)
+        else:
+            ident = ident_mask(base_of(cls), {6: 2, 12: 3, 4: 2}.get(len(ref), 2))
+            tol = T_REL * (np.abs(ref) + (ident if ident is not None and ident.shape == ref.shape else 0.0))
+        with np.errstate(invalid="ignore"):
+            bad = ~((np.abs(v - ref) <= tol) | ((v != v) & (ref != ref)))
+        if not bad.any():
             return None
         return "values differ (max abs %.3g): %r vs %r" % (np.nanmax(np.abs(v - ref)), v.tolist()[:8], ref.tolist()[:8])
 
@@ -650,6 +959,8 @@ class C05(Check):
         if drift:
             fails.append(Failure(where, "state-drift", "object changed since the last step: %s" % drift))
         w_ref = np.array(w, copy=True)
+        if kind == "own" and (w_ref.ndim != 1 or len(w_ref) != self._n(st)):
+            return fails + [Failure(where, "vector-length", "as_vector() has shape %r, the reference vector has %d numbers" % (w_ref.shape, self._n(st)))]
         try:
             r = o.from_vector(w)
         except Exception as e:  # noqa - a vector of the right length must be accepted
@@ -668,7 +979,7 @@ class C05(Check):
         except Exception as e:  # noqa
             return fails + [Failure(where, "result-ill-formed", "the result cannot be observed: %s: %s" % (type(e).__name__, e))]
         exp = ref_from_vector(ob0, w_ref)
-        diff = obs_diff(exp, obr, atol, rtol)
+        diff = self._odiff(exp, obr, cls)
         if diff:
             clause = "roundtrip-state" if kind == "own" else "rebuilt-state"
             fails.append(Failure(where, clause, "expected (reference) vs observed result: %s" % diff))
@@ -682,7 +993,7 @@ class C05(Check):
                 m = ob0["mask"][0]
                 if not (np.array_equal(obr["pixels"][:, m], ob0["pixels"][:, m]) and not obr["pixels"][:, ~m].any()):
                     fails.append(Failure(where, "roundtrip-state", "masked pixels not reproduced / not zero outside the mask"))
-            diff = obs_diff(ob0, obr, atol, rtol, skip=skip)
+            diff = self._odiff(ob0, obr, cls, skip=skip)
             if diff:
                 fails.append(Failure(where, "roundtrip-state", "from_vector(as_vector()) differs from the object: %s" % diff))
         # the vector comes back
@@ -705,11 +1016,11 @@ class C05(Check):
         if "source" in obr:
             base = base_of(cls)
             want = ref_apply(base, obr["h_matrix"], obr["source"])
-            if obs_diff(want, obr["target"], atol, rtol):
+            if not arr_close(want, obr["target"], apply_mag(base, obr["h_matrix"], obr["source"])):
                 fails.append(Failure(where, "target-sync", "target %r is not the aligned source %r" % (obr["target"].tolist()[:2], want.tolist()[:2])))
             if obs_diff(ob0["source"], obr["source"]):
                 fails.append(Failure(where, "source-changed", "source moved"))
-            moved = obs_diff(ob0["target"], obr["target"], 1e-6, 0) is not None
+            moved = not arr_close(ob0["target"], obr["target"], float(np.abs(ob0["target"]).max()), 1e-9)
             self.note("alignment:%s" % ("target-moved" if moved else "target-kept"))
         # independence: editing the result must not edit the receiver (alignment sources are shared by design)
         if not fails:
@@ -841,7 +1152,7 @@ class C05(Check):
         if "source" in ob0 and not bad:
             obr = observe(r)
             want = ref_apply(base_of(cls), obr["h_matrix"], obr["source"])
-            if obs_diff(want, obr["target"], T_ATOL, T_RTOL):
+            if not arr_close(want, obr["target"], apply_mag(base_of(cls), obr["h_matrix"], obr["source"])):
                 fails.append(Failure(where, "target-sync", "accepted %d numbers (n_parameters=%d); target is not the aligned source" % (length, n)))
         if bad:
             detail = "from_vector accepted %d numbers (n_parameters=%d) and returned a %s whose own queries fail: %r" % (length, n, type(r).__name__, bad)
@@ -925,7 +1236,14 @@ class C05(Check):
             "compose:accepted:Similarity<-Rotation",
             "fv:own-after-compose",
             "fv:gen-after-compose",
+            "size:large-onefalse",
+            "size:large-single",
+            "equivariance:shape",
+            "equivariance:image",
+            "equivariance:transform",
+            "scale:nearid:transform",
         ]
+        need += ["scale:%s:%s" % (v, f) for v in SCALE_VARS for f in ("shape", "image", "transform")]
         if self.tier != "quick":
             need += ["level2:fv", "masked:none", "asvec:len0"]
         out += ["outcome %s never produced" % n for n in need if not notes.get(n)]
@@ -949,7 +1267,8 @@ class C05(Check):
             "generic_vectors_per_object": self.n_gen(),
             "quaternions": len(quat_grid(self.tier)),
             "wrong_lengths": "0, 1, n-1, n+1, 2n, plus n-d, n+d, 3n, d (shapes); c, 2c, n-c, n+c, all pixels (images); d, d+1, n//2, n_parameters of the other dimension (transforms)",
-            "tolerance_transforms": {"atol": T_ATOL, "rtol": T_RTOL, "quaternion_atol": 1e-9},
+            "tolerance_transforms": {"relative_to_magnitude": T_REL, "unit_quaternion": Q_REL},
+            "scale_letters": {"factors": list(SCALE_VARS) + ["nearid (deviation 1e-7 from the identity)"], "large_size": list(LARGE), "transform_scale_roots": sum(len(o) for _, _, o in SCALE_TRANSFORMS)},
         }
 
     def assumptions(self):
@@ -962,6 +1281,8 @@ class C05(Check):
             "in-place composition letters only produce further objects (their own correctness is C03); a refused partner leaves the letter as it is",
             "keep_channels / n_channels / copy keyword variants of the image methods are outside the property",
             "the number of true pixels of a sparse mask is payload, so which of the listed wrong lengths coincide (and are enumerated once) can differ by one or two letters between seeds",
+            "scale letters: payload x 1e-6, 1e-9, 1e6, + 1e6 offset, nearly-identity transforms (1e-7) and 320x320 images with one false / one true mask pixel, on the subset of letters listed in SCALE_TRANSFORMS / roots(); tolerances are relative to the magnitude of the data (T_REL), shapes and images stay bitwise",
+            "no offset letter for AlignmentAffine / AlignmentRotation / the scale classes: a common offset of 1e6 makes the affine fit ill-conditioned (not centred) and is meaningless for origin-fixed maps; uint8 / bool payloads have no other magnitude",
             "D24 (open): a wrong length that is another multiple of n_dims accepted by a shape with connectivity whose own queries then fail is reported as KNOWN-FINDING, everything else as VIOLATION",
         ]
 
